@@ -25,6 +25,11 @@ CLAIMED = {
    note="Trusted base: table configuration name -> detector function; generated toml files always carry all four keys; runs whose selected directory does not exist are not judged; main()'s five lines are mirrored by the driver (simbin runs the real main).",
    technique="deterministic simulation of the process environment (argv, cwd, files present, exit status, effect ordering in the journal) against a reference model of option resolution; complete enumeration of the documented-name table",
    engine="simproc"),
+ "C15": dict(level="exploration", design="§6 C15",
+   text="Seeded histories of library calls compared with a fresh-process baseline: chains of scenarios run without reset in one child process; each scenario is 2-4 tasks on real OS threads under a baton scheduler whose seeded order decides which thread performs the next call (direct per-file calls with arbitrary file numbers, repeated calls, directory walks embedding the same texts among varying siblings/positions/pattern sets). Every observed (text, pattern) verdict must equal the verdict of one call in a fresh process. Replay and minimisation re-run the chain in fresh processes.",
+   note="Call-granular interleaving (one thread runs at a time) natively; preemptive interleaving, data races and seeded RandomState only in the simmiri tier. Baseline trusts a single call in a fresh process.",
+   technique="deterministic simulation: seeded baton scheduling of real threads over call histories, differential oracle against a fresh-process single-call baseline",
+   engine="simproc"),
  "C16": dict(level="fault_enumeration", design="§6 C16",
    text="Differential simulation: the same walk with and without the inert files under the same schedule must agree and must not fail; every inert file carries a fault (invalid UTF-8, unparseable text, findings-stuffed valid Solidity, read->EIO, read->EACCES) so that touching it is consequential. The name-class x content-class x depth cross product is enumerated completely in every tier; tree shapes, random valid-Unicode names and schedules around it are seeded samples.",
    note="Valid-Unicode names only; names with '.t.sol' in the middle not generated; read_dir failures and vanishing files not injected (property silent).",
